@@ -262,7 +262,9 @@ def validate_traces(module, cfg, trace_files, timeout=900, heap="3g", par=None, 
 
 def _run_harness_once(engine, scen_file, out_prefix, w, extra, timeout, tags, env):
     binp = build_harness(tags)
-    cmd = [binp, engine, "-in", scen_file, "-out", out_prefix, "-workers", str(w), "-dir", subdir("run." + engine)] + list(extra)
+    rundir = out_prefix + ".dir"
+    os.makedirs(rundir, exist_ok=True)
+    cmd = [binp, engine, "-in", scen_file, "-out", out_prefix, "-workers", str(w), "-dir", rundir] + list(extra)
     e = dict(os.environ)
     e["GOLOG_LOG_LEVEL"] = "fatal"
     if env:
